@@ -77,14 +77,7 @@ theorem validRecordLine_of_shape {l body : Bytes} (hl : l = body ++ [10]) (h : A
   obtain ⟨ha, hn⟩ := acceptsCompact_line hc
   exact ⟨body, hl, h, hc, hl ▸ ha, hn⟩
 
-/-- **C02, main theorem.** For every configuration, every formatter state reachable by any history
-of calls, every entry (any sequence of writer calls: any names and strings, any observation lists
-with NaN / infinities / zero-occurrence / empty distributions in any position, any units,
-dimensions, flags, entry configuration), every sampling multiplicity or none, provided every float
-text is a JSON number (`fmtOk`, the `dtoa` law checked at run time) and the writer does not fail:
-if the call reports success then the bytes written are one or more complete lines, each of which is
-a valid record line (`ValidRecordLine`). -/
-theorem c02_lines_valid (cfg : Config) {s : State} (hs : Reachable cfg s) (call : Call)
+theorem lines_valid_unlimited (cfg : Config) {s : State} (hs : Reachable cfg s) (call : Call)
     (hfmt : call.fmtOk = true) (hio : call.ioBudget = none)
     (hok : (format (Consts.ofConfig cfg) s call).2.1 = .ok) :
     ∃ lines, lines ≠ [] ∧ (format (Consts.ofConfig cfg) s call).2.2.bytes = lines.flatten ∧
@@ -107,17 +100,34 @@ theorem c02_lines_valid (cfg : Config) {s : State} (hs : Reachable cfg s) (call 
     obtain ⟨body, hb, hshape⟩ := hl l hlm
     exact validRecordLine_of_shape hb hshape
 
+/-- **C02, main theorem.** For every configuration, every formatter state reachable by any history
+of calls, every entry (any sequence of writer calls: any names and strings, any observation lists
+with NaN / infinities / zero-occurrence / empty distributions in any position, any units,
+dimensions, flags, entry configuration), every sampling multiplicity or none, every writer (with
+any byte budget), provided every float text is a JSON number (`fmtOk`, the `dtoa` law, checked at
+run time): if the call reports success then the bytes written are one or more complete lines, each
+of which is a valid record line (`ValidRecordLine`). -/
+theorem c02_lines_valid (cfg : Config) {s : State} (hs : Reachable cfg s) (call : Call)
+    (hfmt : call.fmtOk = true) (hok : (format (Consts.ofConfig cfg) s call).2.1 = .ok) :
+    ∃ lines, lines ≠ [] ∧ (format (Consts.ofConfig cfg) s call).2.2.bytes = lines.flatten ∧
+      ∀ l ∈ lines, ValidRecordLine l := by
+  obtain ⟨hok', hbytes⟩ := format_ok_unlimited _ s call hok
+  rw [hbytes]
+  exact lines_valid_unlimited cfg hs { call with ioBudget := none } hfmt rfl hok'
+
 /-- **C02, JSON corollary** (the statement in the words of the property): on success every emitted
 line is accepted by the strict JSON recogniser and ends with its only raw newline. -/
 theorem c02_lines_parse (cfg : Config) {s : State} (hs : Reachable cfg s) (call : Call)
-    (hfmt : call.fmtOk = true) (hio : call.ioBudget = none)
-    (hok : (format (Consts.ofConfig cfg) s call).2.1 = .ok) :
+    (hfmt : call.fmtOk = true) (hok : (format (Consts.ofConfig cfg) s call).2.1 = .ok) :
     ∃ lines, lines ≠ [] ∧ (format (Consts.ofConfig cfg) s call).2.2.bytes = lines.flatten ∧
       ∀ l ∈ lines, accepts l = true ∧ ∃ body, l = body ++ [10] ∧ 10 ∉ body := by
-  obtain ⟨lines, hne, heq, hl⟩ := c02_lines_valid cfg hs call hfmt hio hok
+  obtain ⟨lines, hne, heq, hl⟩ := c02_lines_valid cfg hs call hfmt hok
   refine ⟨lines, hne, heq, fun l hlm => ?_⟩
   obtain ⟨body, hb, -, -, ha, hn⟩ := hl l hlm
   exact ⟨ha, body, hb, hn⟩
+
+/-- the `Timestamp` of a record is an integer: `itoa` prints digits only -/
+theorem c02_timestamp_integer (ts : Nat) : ∀ x ∈ natDigits ts, isDigit x = true := natDigits_all_digits ts
 
 /-! ### Non-vacuity: an entry with two strings (one needing escapes), a 4-observation distribution with
 NaN first and last, one split metric, two namespaces, sampled with multiplicity 2: accepted, two
@@ -145,3 +155,4 @@ end Emf
 #print axioms Emf.c02_escape
 #print axioms Emf.c02_lines_valid
 #print axioms Emf.c02_lines_parse
+#print axioms Emf.c02_timestamp_integer
